@@ -42,6 +42,7 @@ type Job struct {
 	Mut      Mut    `json:"mut"`
 	MaxNodes int    `json:"maxnodes"` // include the node table when the tree has at most this many nodes
 	Tree     bool   `json:"tree"`     // judge the tree (ref predicates, bits); false: outcome only
+	CLI      bool   `json:"cli"`      // run the fq command line in process instead of decode.Decode
 }
 
 type Res struct {
@@ -55,6 +56,9 @@ type Res struct {
 	RefWhy   string         `json:"refwhy"`
 	RefGap   string         `json:"refgap"`
 	RefBits  string         `json:"refbits"`
+	Single   bool           `json:"single"`      // the group has exactly one format
+	Exit     int            `json:"exit"`        // command line runs: exit status
+	Stdout   bool           `json:"stdout_tree"` // command line runs: something was printed on stdout
 	Nodes    []treelib.Node `json:"nodes"`
 	Bufs     map[string][]int `json:"bufs"`
 }
@@ -153,9 +157,26 @@ func work(raw json.RawMessage) any {
 	if err != nil {
 		panic("harness: unknown format " + j.Format)
 	}
+	if j.CLI {
+		args := []string{"-d", j.Format}
+		if j.Force {
+			args = append(args, "-o", "force=true")
+		}
+		r := kit.RunFQ(append(args, "._start", "f"), map[string][]byte{"f": data}, nil)
+		res := Res{Size: len(data), Nodes: []treelib.Node{}, Bufs: map[string][]int{}, Single: len(group.Formats) == 1}
+		res.Stdout = len(bytes.TrimSpace(r.Stdout)) > 0
+		if r.Err != nil {
+			res.Exit = 1
+			if ex, ok := r.Err.(interp.Exiter); ok {
+				res.Exit = ex.ExitCode()
+			}
+			res.ErrMsg = r.Err.Error()
+		}
+		return res
+	}
 	br := bitio.NewBitReader(data, -1)
 	dv, _, derr := decode.Decode(context.Background(), br, group, decode.Options{IsRoot: true, FillGaps: true, Force: j.Force})
-	res := Res{Size: len(data), Nodes: []treelib.Node{}, Bufs: map[string][]int{}}
+	res := Res{Size: len(data), Nodes: []treelib.Node{}, Bufs: map[string][]int{}, Single: len(group.Formats) == 1}
 	if derr != nil {
 		res.ErrMsg = derr.Error()
 		if len(res.ErrMsg) > 300 {
